@@ -171,12 +171,27 @@ def run_unit(unit, seed=None, rlimit=None, canary_for=None, extra_tag="", num_th
                     if sp.get("is_primary"):
                         break
         gen_line = prim["line_start"] if prim else None
-        fn = None
-        if gen_line is not None:
+
+        def fn_at(line):
+            best = None
             for name, f in obl.items():
-                if f["line"] <= gen_line <= f["end"]:
-                    if fn is None or (obl[fn]["end"] - obl[fn]["line"]) > (f["end"] - f["line"]):
-                        fn = name
+                if f["line"] <= line <= f["end"]:
+                    if best is None or (obl[best]["end"] - obl[best]["line"]) > (f["end"] - f["line"]):
+                        best = name
+            return best
+        fn = fn_at(gen_line) if gen_line is not None else None
+        if fn is not None and obl[fn].get("mode") == "declared":
+            # the clause that failed is written on a bodiless trait method: the function that failed is the impl method whose
+            # body the other span of the diagnostic points into
+            for sp in spans:
+                s2 = sp
+                while s2 and not s2.get("file_name", "").endswith(os.path.basename(gen)) and s2.get("expansion"):
+                    s2 = s2["expansion"]["span"]
+                if s2 and s2.get("file_name", "").endswith(os.path.basename(gen)):
+                    alt = fn_at(s2["line_start"])
+                    if alt is not None and obl[alt].get("mode") != "declared":
+                        fn = alt
+                        break
         origin = None
         if gen_line is not None and 1 <= gen_line <= len(linemap):
             o = linemap[gen_line - 1]
